@@ -19,4 +19,8 @@ InvDrops == DropsOnlyLeafless(T)
 InvInjective == InjectiveOn(Flatten(T), Enc)
 \* global injectivity of the key text over every path in the bounds (one evaluation)
 ASSUME InjectiveOn(Paths, Enc)
+\* witnesses (vacuity guard): on the same alphabet the two named deviations are NOT injective
+HasSurrogateKeys == [t |-> "s", v |-> <<HI, LO>>] \in Keys /\ [t |-> "s", v |-> <<AST>>] \in Keys
+ASSUME ~InjectiveOn(Paths, EncNaive)
+ASSUME HasSurrogateKeys => ~InjectiveOn(Paths, EncAscii)
 =============================================================================
